@@ -181,7 +181,7 @@ pub fn run(args: &Args) -> Report {
         ks: if thorough { vec![0, 1, 2, 3, 4] } else { vec![0, 1, 2] },
         env: 0,
         fault: 1,
-        total_wall: Duration::from_secs(if thorough { 900 } else { 50 }),
+        total_wall: Duration::from_secs(if thorough { 900 } else { 100 }),
         max_execs_per_case: if thorough { 3_000_000 } else { 200_000 },
         required_witnesses: xfer::W_CREDIT_ZERO | xfer::W_ACK_SENT | xfer::W_ALL_DONE | xfer::W_TWO_STREAMS_INTERLEAVED,
         adaptive: thorough,
